@@ -62,6 +62,7 @@ def main(argv):
             with open(replay) as f:
                 rec = json.load(f)
             os.environ["VERIF_SEED"] = str(rec.get("seed", 0))
+            os.environ["VERIF_REPLAY"] = "1"
             if modname == "vf.checks_wire":
                 rc = mod.replay(pid, rec.get("case", {}))
                 if rc is not None:
